@@ -485,6 +485,7 @@ type FuncContract struct {
 	Options   map[string]string
 	GhostSets []*Clause // "ghostset x.f = expr" applied at exit
 	EnsuresPanic []*Clause
+	GhostAlls    []*Clause // "ghostall S.f(x) = expr": pointwise redefinition of a ghost field at exit
 	File      string
 	Line      int
 }
@@ -747,6 +748,20 @@ func ParseContractFile(path string, pkg string) (*ContractFile, error) {
 			} else {
 				cur.Options[fs[0]] = "true"
 			}
+		case "ghostall":
+			if cur == nil {
+				return nil, fail(fmt.Errorf("ghostall outside func"))
+			}
+			eq := strings.Index(tail, " = ")
+			if eq < 0 {
+				return nil, fail(fmt.Errorf("ghostall wants S.f(x) = expr"))
+			}
+			c, err := parseClause("ghostall", props, strings.TrimSpace(tail[eq+3:]), l.no)
+			if err != nil {
+				return nil, fail(err)
+			}
+			c.Name = strings.TrimSpace(tail[:eq])
+			cur.GhostAlls = append(cur.GhostAlls, c)
 		case "requires", "ensures", "modifies", "panics", "ghostset", "ensures-panic":
 			if cur == nil {
 				return nil, fail(fmt.Errorf("%s outside func", kind))
